@@ -6,6 +6,8 @@ from ..report import Report
 def run(tier, seed):
     rep = Report("C04", tier, seed, "other")
     deductive(rep, "C04", ["markdown_it.rules_block.html_block.html_block"], "contracts.block")
+    import contracts.emph as EM
+    deductive(rep, "C04", [EM.QS], "contracts.emph")
     try:
         from .. import lang
         lang.add_obligations(rep, "C04")
@@ -19,7 +21,7 @@ def run(tier, seed):
                  ["js-default"], "all concatenations of <= k pieces over {*, **, _, ~~, ~, a, space, [, ](x), b}", "delimiter universe")
     rep.explanation = (
         "Mixed. Deductive: html_block returns True only under a truthy options.html (POST needs-html-option); language-inclusion obligations (LANG) "
-        "for escapeHtml and the renderer functions when the language back end is present in this run. Bounded: output monitor "
+        "for escapeHtml and the renderer functions when the language back end is present in this run; strikethrough._postProcess is proved never to move or alter a structural token present at entry (its lone-marker swap crosses s_close records only), which is what keeps </s> inside the element it was opened in. Bounded: output monitor "
         "render(x) in Safe and properly nested, html off, over the line and inline universes.")
     rep.trusted_base += STD_TRUST
     rep.assumptions += ["'balanced tokens + per-token languages => nested HTML' is a composition step (not machine-checked)"]
